@@ -11,6 +11,7 @@
 -/
 import Corerad.Gen.Trans
 import Corerad.Model.Config
+import Corerad.Model.RA
 
 namespace Corerad.Props.TransC01
 
@@ -69,5 +70,50 @@ example : Gen.Trans.NewPREF64_lifetime (5500 * ms) = 24 * second := by decide
 example : Gen.Trans.NewPREF64_lifetime (8100 * ms) = 32 * second := by decide
 example : Gen.Trans.NewPREF64_lifetime (600 * second) = 1800 * second := by decide
 example : Gen.Trans.NewPREF64_lifetime (30000 * second) = 8191 * 8 * second := by decide
+
+/-! ### The Apply methods of the plugins with a wildcard form (tools/extract/translate_apply.go)
+
+`(*Prefix).Apply` / `apply`, `(*Route).Apply` / `apply`, `(*RDNSS).Apply` / `apply` re-translated from the
+current source text; composed — the translated `Apply` given the translated `apply`, the lifetimes and
+the wildcard expansion — they are the model's `Plugin.apply` for a prepared plugin (its source of system
+state and its clock installed), for every stanza and every system state. -/
+
+theorem Prefix_Apply_equiv (sys : SysState) (auto : Bool) (p : Prefix) (onLink autonomous : Bool)
+    (valid pref : Dur) (dep : Bool) :
+    Gen.Trans.Prefix_Apply (Auto := auto) (Addrs_nil := false) (Deprecated := dep) (TimeNow_nil := false) (Prefix := p)
+        (current := sys.addrs.map (currentPrefixes p.bits))
+        (apply := Gen.Trans.Prefix_apply onLink autonomous (prefixLifetimes dep sys.epoch valid pref sys.now))
+      = Plugin.apply sys (.pfx auto p onLink autonomous valid pref dep) := by
+  unfold Gen.Trans.Prefix_Apply Gen.Trans.Prefix_apply Plugin.apply
+  cases auto <;> cases sys.addrs <;> simp
+
+theorem Route_Apply_equiv (sys : SysState) (auto : Bool) (p : Prefix) (preference : Nat) (lifetime : Dur) (dep : Bool) :
+    Gen.Trans.Route_Apply (Auto := auto) (Routes_nil := false) (Deprecated := dep) (TimeNow_nil := false) (Prefix := p)
+        (current := sys.routes.map currentRoutes)
+        (apply := Gen.Trans.Route_apply preference (routeLifetime dep sys.epoch lifetime sys.now))
+      = Plugin.apply sys (.route auto p preference lifetime dep) := by
+  unfold Gen.Trans.Route_Apply Gen.Trans.Route_apply Plugin.apply
+  cases auto <;> cases sys.routes <;> simp
+
+theorem RDNSS_Apply_equiv (sys : SysState) (auto : Bool) (lifetime : Dur) (servers : List IP) :
+    Gen.Trans.RDNSS_Apply (Auto := auto) (Addrs_nil := false) (Servers := servers)
+        (current := sys.addrs.bind currentRDNSS)
+        (apply := Gen.Trans.RDNSS_apply lifetime)
+      = Plugin.apply sys (.rdnss auto lifetime servers) := by
+  unfold Gen.Trans.RDNSS_Apply Gen.Trans.RDNSS_apply Plugin.apply applyRDNSS
+  cases auto
+  · simp
+  · cases h : sys.addrs with
+    | none => simp [h]
+    | some as => cases h2 : currentRDNSS as <;> simp [h, h2]
+
+/-- a plugin that was never prepared (its source of system state or its clock is missing) fails: the
+    guard of the translated `Apply` (F-12: a scrape before the first Prepare) -/
+theorem Apply_not_prepared (p : Prefix) (cur : Option (List Prefix)) (ap : List Prefix → List Opt) :
+    Gen.Trans.Prefix_Apply true true false false p cur ap = none ∧
+    Gen.Trans.Prefix_Apply false false true true p cur ap = none ∧
+    Gen.Trans.Route_Apply true true false false p cur ap = none ∧
+    Gen.Trans.Route_Apply false false true true p cur ap = none := by
+  simp [Gen.Trans.Prefix_Apply, Gen.Trans.Route_Apply]
 
 end Corerad.Props.TransC01
